@@ -159,7 +159,19 @@ def c08(pid, tier, seed):
             runs.append(dict(prog_json(m, m["lead"]["schedule"]), lead=m["lead"]["invariant"]))
     bad, st, total = vlib.replay_and_judge("%s_runs" % pid, runs, "sync", "Trace_Sync", shards=8, keep_traces=True)
     byh = {r["h"]: r for r in runs}
+    # the same schedules once more for the programs with a MultiProgress, with the read-write lock in its write-preferring form (what the futex
+    # implementation of std::sync::RwLock does: no reader gets in while a writer waits, not even one that holds a read guard already)
+    runs_w = [dict(r, wpref=True) for r in runs if r["setup"].get("multi")]
+    for r in runs_w:
+        r.pop("h", None)
+    bad_w, st_w, total_w = vlib.replay_and_judge("%s_runs_wpref" % pid, runs_w, "sync", "Trace_Sync", shards=8) if runs_w else ([], {}, 0)
+    byh_w = {r["h"]: r for r in runs_w}
     fails = []
+    for v in bad_w:
+        r = byh_w[v["h"]]
+        fails.append(dict(cls="%s/%s/wpref" % (v["rule"], r["program"]), rule=v["rule"], n=len(r["schedule"]), kf=[],
+                          what="rule=%s program=%s result=%s (write-preferring RwLock)" % (v["rule"], r["program"], v.get("op")),
+                          replay={"driver": "sync", "monitor": "Trace_Sync", "rule": v["rule"], "history": r}))
     for v in bad:
         r = byh[v["h"]]
         fails.append(dict(cls="%s/%s" % (v["rule"], r["program"]), rule=v["rule"], n=len(r["schedule"]), kf=[],
@@ -178,7 +190,7 @@ def c08(pid, tier, seed):
                     samples=[{"program": runs[0]["program"], "threads": runs[0]["threads"], "schedule": runs[0]["schedule"]}],
                     clause_counts=st, programs=len(models), program_list=[{"name": m["name"], "callers": m["callers"], "multi": m["multi"], "ticker": m["tk"], "model_states": m["dist"],
                                                  "schedules": len(m["scheds"])} for m in models][:60],
-                    model_leads=lead_notes, trace_conformance=conf,
+                    model_leads=lead_notes, trace_conformance=conf, write_preferring_runs={"runs": len(runs_w), "records": total_w, "verdicts": len(bad_w)},
                     rule="per program TLC explores all interleavings of Sync.tla at lock/notify/spawn/join/wait granularity and checks NoDeadlock, NoTimeoutDependence, SlotOK, CleanEnd; the shortest "
                          "schedule to every reachable model state is replayed on the real code under the controlled scheduler (hooks) and judged by Trace_Sync", exhaustive=False)
     return dict(level="model_checking", coverage=coverage, failures=fails,
